@@ -70,12 +70,15 @@ def pubOfPriv (c : CurveT) (priv : Bytes) : Option Bytes :=
 
 /-! ### public keys -/
 
-/-- secp256k1 via libsecp256k1 also accepts the hybrid encodings 06/07 (y parity must match). -/
+/-- Besides SEC1 compressed/uncompressed, both ECDSA back ends (libsecp256k1 via coincurve,
+python-ecdsa for NIST P-256) accept the hybrid encodings 06/07 (y parity must match the prefix);
+python-ecdsa additionally accepts the raw 64-byte encoding `x ‖ y` (no prefix, on-curve check
+included); libsecp256k1 refuses it. -/
 def wDecodePub (c : CurveT) (b : Bytes) : Option WPoint :=
   match c.wcurve.decode b with
   | some p => some p
   | none =>
-    if c = .secp256k1 && b.length = 65 then
+    if (c = .secp256k1 || c = .nist256p1) && b.length = 65 then
       match b with
       | pfx :: rest =>
         if pfx = 6 || pfx = 7 then
@@ -84,6 +87,7 @@ def wDecodePub (c : CurveT) (b : Bytes) : Option WPoint :=
           | _ => none
         else none
       | [] => none
+    else if c = .nist256p1 && b.length = 64 then c.wcurve.decode (4 :: b)
     else none
 
 /-- strip the optional `0x00` prefix of the ed25519 public key classes. -/
